@@ -17,7 +17,7 @@ Proof.
 Qed.
 
 Definition sk_inv (content : str) (k : rsc) (s : pos) : Prop :=
-  k_size k = len content /\ k_off k = s_off s /\ k_closed k = s_closed s /\
+  k_size k = len content /\ k_off k = s_off s /\ k_closed k = s_closed s /\ k_bi k = s_bi s /\
   (k_closed k = false -> k_rc k = skipn (N.to_nat (k_off k)) content).
 
 Lemma len_nat (s : str) : N.to_nat (len s) = length s.
@@ -30,69 +30,101 @@ Proof.
   pose proof (len_nat content). lia.
 Qed.
 
-Ltac fin := cbv beta iota zeta; unfold sk_inv; cbn [k_size k_off k_closed k_rc s_off s_closed];
+Ltac fin := cbv beta iota zeta; unfold sk_inv; cbn [k_size k_off k_closed k_rc k_bi s_off s_closed s_bi];
   repeat split; auto; try congruence; try (intro; congruence).
 
-Lemma rsc_step_refines content k s o :
-  sk_inv content k s ->
-  let '(k1, rq, out) := rsc_step content k o in
-  let '(s1, rq', out') := ref_step content s o in
-  rq = rq' /\ out = out' /\ sk_inv content k1 s1.
-Proof.
-  intros (Hsz & Hoff & Hcl & Hrc). destruct o as [n|off w|].
-  - (* Read *)
-    unfold rsc_step, ref_step. rewrite <- Hcl. destruct (k_closed k) eqn:Ec.
-    + fin.
-    + specialize (Hrc eq_refl). rewrite <- Hoff. rewrite Hrc. fin.
-      rewrite skipn_skipn.
-      set (rest := skipn (N.to_nat (k_off k)) content).
-      assert (E : skipn (N.to_nat n) rest = skipn (length (firstn (N.to_nat n) rest)) rest)
-        by apply skipn_firstn_len.
-      unfold rest in E at 1 3. rewrite !skipn_skipn in E. rewrite E.
-      intros _. f_equal. unfold len. lia.
-  - (* Seek *)
-    unfold rsc_step, ref_step. rewrite <- Hcl. destruct (k_closed k) eqn:Ec.
-    + fin.
-    + rewrite <- Hoff, <- Hsz. cbv zeta.
-      set (tgt := match w with
-                  | SeekStart => off
-                  | SeekCurrent => (off + Z.of_N (k_off k))%Z
-                  | SeekEnd => (off + Z.of_N (k_size k))%Z
-                  end).
-      destruct (tgt <? 0)%Z eqn:Eneg.
-      * fin.
-      * set (t := Z.to_N tgt).
-        destruct (t =? k_off k) eqn:Eeq.
-        -- apply N.eqb_eq in Eeq. cbn [negb andb]. fin.
-        -- cbn [negb andb]. destruct (k_size k <=? t) eqn:Ege.
-           ++ apply N.leb_le in Ege.
-              assert (El : (t <? k_size k) = false) by (apply N.ltb_ge; exact Ege).
-              rewrite El. fin. symmetry. apply skipn_all2.
-              pose proof (len_nat content). lia.
-           ++ apply N.leb_gt in Ege.
-              assert (El : (t <? k_size k) = true) by (apply N.ltb_lt; exact Ege).
-              rewrite El. unfold range_body.
-              assert (E1 : (t <=? k_size k - 1) = true) by (apply N.leb_le; lia).
-              assert (E2 : (k_size k - 1 <? len content) = true) by (apply N.ltb_lt; lia).
-              rewrite E1, E2. cbn [andb]. fin.
-              intros _. rewrite Hsz. apply slice_tail. lia.
-  - (* Close *)
-    unfold rsc_step, ref_step. fin.
-Qed.
+Section SeekProof.
+  Variable modes : nat -> bmode.
 
-Lemma rsc_run_refines content os : forall k s,
-  sk_inv content k s -> rsc_run content k os = ref_run content s os.
-Proof.
-  induction os as [|o os IH]; intros k s Hinv; [reflexivity|].
-  pose proof (rsc_step_refines content k s o Hinv) as Hs.
-  cbn [rsc_run ref_run].
-  destruct (rsc_step content k o) as [[k1 rq] out].
-  destruct (ref_step content s o) as [[s1 rq'] out'].
-  destruct Hs as (-> & -> & Hinv1). f_equal. apply IH. exact Hinv1.
-Qed.
+  Lemma rsc_step_refines content k s o :
+    sk_inv content k s ->
+    let '(k1, rq, out) := rsc_step modes content k o in
+    let '(s1, rq', out') := ref_step modes content s o in
+    rq = rq' /\ out = out' /\ sk_inv content k1 s1.
+  Proof.
+    intros (Hsz & Hoff & Hcl & Hbi & Hrc). destruct o as [n|off w|].
+    - (* Read *)
+      unfold rsc_step, ref_step. rewrite <- Hcl. destruct (k_closed k) eqn:Ec.
+      + fin.
+      + specialize (Hrc eq_refl). rewrite <- Hoff, <- Hbi, Hrc.
+        unfold read_chunk.
+        set (rest := skipn (N.to_nat (k_off k)) content).
+        set (l := N.to_nat (read_len (modes (k_bi k)) n (len rest))).
+        fin. intros _.
+        assert (E : skipn l rest = skipn (length (firstn l rest)) rest) by apply skipn_firstn_len.
+        rewrite E. unfold rest. rewrite skipn_skipn. f_equal. unfold len. lia.
+    - (* Seek *)
+      unfold rsc_step, ref_step. rewrite <- Hcl. destruct (k_closed k) eqn:Ec.
+      + fin.
+      + rewrite <- Hoff, <- Hsz, <- Hbi. cbv zeta.
+        set (tgt := match w with
+                    | SeekStart => off
+                    | SeekCurrent => (off + Z.of_N (k_off k))%Z
+                    | SeekEnd => (off + Z.of_N (k_size k))%Z
+                    end).
+        destruct (tgt <? 0)%Z eqn:Eneg.
+        * fin.
+        * set (t := Z.to_N tgt).
+          destruct (t =? k_off k) eqn:Eeq.
+          -- apply N.eqb_eq in Eeq. cbn [negb andb]. fin.
+          -- cbn [negb andb]. destruct (k_size k <=? t) eqn:Ege.
+             ++ apply N.leb_le in Ege.
+                assert (El : (t <? k_size k) = false) by (apply N.ltb_ge; exact Ege).
+                rewrite El. fin. intros _. symmetry. apply skipn_all2.
+                pose proof (len_nat content). lia.
+             ++ apply N.leb_gt in Ege.
+                assert (El : (t <? k_size k) = true) by (apply N.ltb_lt; exact Ege).
+                rewrite El. unfold range_body.
+                assert (E1 : (t <=? k_size k - 1) = true) by (apply N.leb_le; lia).
+                assert (E2 : (k_size k - 1 <? len content) = true) by (apply N.ltb_lt; lia).
+                rewrite E1, E2. cbn [andb]. fin.
+                intros _. rewrite Hsz. apply slice_tail. lia.
+    - (* Close *)
+      unfold rsc_step, ref_step. fin.
+  Qed.
 
-Theorem seek_refines content os :
-  rsc_run content (rsc_open content (len content)) os = ref_run content (mkPos 0 false) os.
-Proof.
-  apply rsc_run_refines. unfold sk_inv, rsc_open; cbn. repeat split; auto.
-Qed.
+  Lemma rsc_run_refines content os : forall k s,
+    sk_inv content k s -> rsc_run modes content k os = ref_run modes content s os.
+  Proof.
+    induction os as [|o os IH]; intros k s Hinv; [reflexivity|].
+    pose proof (rsc_step_refines content k s o Hinv) as Hs.
+    cbn [rsc_run ref_run].
+    destruct (rsc_step modes content k o) as [[k1 rq] out].
+    destruct (ref_step modes content s o) as [[s1 rq'] out'].
+    destruct Hs as (-> & -> & Hinv1). f_equal. apply IH. exact Hinv1.
+  Qed.
+
+  Theorem seek_refines content os :
+    rsc_run modes content (rsc_open content (len content)) os = ref_run modes content (mkPos 0 false 0) os.
+  Proof.
+    apply rsc_run_refines. unfold sk_inv, rsc_open; cbn. repeat split; auto.
+  Qed.
+
+  (* what the reference reader returns, whatever the body behaviour: a prefix of the bytes at
+     the position, no longer than the buffer; io.EOF only at the end of the content *)
+  Theorem ref_read_spec content k n k1 rq c eof :
+    s_closed k = false ->
+    ref_step modes content k (SRead n) = (k1, rq, SData c eof) ->
+    rq = [] /\ c = firstn (length c) (skipn (N.to_nat (s_off k)) content) /\
+    (len c <= n) /\ s_off k1 = s_off k + len c /\
+    (eof = true -> skipn (N.to_nat (s_off k1)) content = []).
+  Proof.
+    intros Hc. unfold ref_step. rewrite Hc. unfold read_chunk.
+    set (rest := skipn (N.to_nat (s_off k)) content).
+    set (l := N.to_nat (read_len (modes (s_bi k)) n (len rest))).
+    intro X. injection X as <- <- <- <-. cbn [s_off].
+    assert (Hl : (l <= N.to_nat n)%nat).
+    { unfold l, read_len. destruct (bm_chunk (modes (s_bi k)) =? 0); lia. }
+    repeat split.
+    - destruct (Nat.le_gt_cases l (length rest)) as [Hle|Hgt].
+      + now rewrite firstn_length_le.
+      + rewrite (firstn_all2 rest) by lia. now rewrite firstn_all.
+    - unfold len. rewrite firstn_length. lia.
+    - intro He.
+      assert (E : skipn (N.to_nat (s_off k + len (firstn l rest))) content = skipn (length (firstn l rest)) rest).
+      { unfold rest. rewrite skipn_skipn. f_equal. unfold len. lia. }
+      rewrite E, <- skipn_firstn_len.
+      destruct rest as [|x r]; [now rewrite skipn_nil|].
+      apply andb_true_iff in He as [_ He]. destruct (skipn l (x :: r)); [reflexivity|discriminate].
+  Qed.
+End SeekProof.
